@@ -1,10 +1,9 @@
-(* The refutations of C10 for the conditional Poisson estimator at the level of VALUES: on the witness matrix the model's estimate, with the
-   Poisson entropy itself as entropy function (every partial sum of the series from 30 terms on), changes by more than 3/4 when X and Y are
-   exchanged and by more than 1/10 when Z's two columns are exchanged.  The two entropies come with kernel-checked enclosures
-   (Model/Itv.v, Proofs/PoissonSeries.v entropy_full_sound: series value within 1e-9 of the stated number for EVERY truncation). *)
+(* The refutations of C10 for the conditional Poisson estimator at the level of VALUES: on the witness matrix the model's estimate changes by
+   more than 3/4 when X and Y are exchanged and by more than 1/10 when Z's two columns are exchanged, for every real entropy function within
+   1e-9 of the two certified numbers h_half, h_one.  That the Poisson entropy series is such a function is Proofs/PoissonCMISeries.v (it needs
+   the interval-tactic library closure of C13, which is kept out of Properties/C10.v so that `coqchk` on it stays as cheap as before). *)
 From Coq Require Import List Arith ZArith QArith Bool Reals Qreals Lra Lia Permutation.
-From CE Require Import Model.PoissonMI Model.PoissonCMI Model.Poisson Model.Itv Proofs.PoissonTail Proofs.PoissonSeries
-     Proofs.PoissonMIProofs Proofs.PoissonCMIProofs.
+From CE Require Import Model.PoissonMI Model.PoissonCMI Model.Poisson Model.Itv Proofs.PoissonMIProofs Proofs.PoissonCMIProofs.
 Import ListNotations.
 
 (* the numbers used by the harness replay (h_half, h_one) are the certified ones *)
@@ -32,26 +31,12 @@ Proof.
   unfold Q2R. cbn [Qnum Qden]. unfold Rdiv. lra.
 Qed.
 
-(* the Poisson entropies of the rates 1/2 and 1: EVERY partial sum of the series from K = 30 on is within 1e-9 of h_half / h_one *)
-Lemma entropy_enclosures K : (30 <= K)%nat ->
-  Rabs (partial_entropy (1 / 2) K - 9276374674957975 / 10000000000000000) <= / 10 ^ 9 /\
-  Rabs (partial_entropy (1 / 1) K - 13048422422562513 / 10000000000000000) <= / 10 ^ 9.
-Proof.
-  intros HK. replace K with (30 + (K - 30))%nat by lia.
-  destruct (entropy_full_sound _ _ _ _ _ cert_half) as [_ H1]. destruct (entropy_full_sound _ _ _ _ _ cert_one) as [_ H2].
-  split; [apply (H1 (K - 30)%nat)|apply (H2 (K - 30)%nat)].
-Qed.
 Lemma Rabs_le_both x a : Rabs x <= a -> - a <= x <= a.
 Proof. unfold Rabs. destruct (Rcase_abs x); lra. Qed.
 
 (* for EVERY real entropy function that is within 1e-9 of the two certified numbers at the rates 1/2 and 1 *)
 Definition near_certified (hR : R -> R) : Prop :=
   Rabs (hR (1 / 2) - Q2R h_half) <= / 10 ^ 9 /\ Rabs (hR (1 / 1) - Q2R h_one) <= / 10 ^ 9.
-Lemma series_near_certified K : (30 <= K)%nat -> near_certified (fun lam => partial_entropy lam K).
-Proof.
-  intros HK. destruct (entropy_enclosures K HK) as [A B]. split; [refine (Rle_trans _ _ _ (Req_le _ _ _) A)|refine (Rle_trans _ _ _ (Req_le _ _ _) B)];
-  f_equal; unfold Q2R, h_half, h_one; cbn [Qnum Qden]; lra.
-Qed.
 Lemma swap_values_gen hR : near_certified hR -> pcmi_valueR hR t_orig + 3 / 4 < pcmi_valueR hR t_swap.
 Proof.
   intros [A B]. rewrite value_orig, value_swap. unfold Q2R, h_half, h_one in A, B. cbn [Qnum Qden] in A, B.
@@ -93,11 +78,3 @@ Theorem witness_certificates :
   check_entropy_full_case (1, 1, 30%nat, Qnum h_one, Zpos (Qden h_one))%Z = true.
 Proof. exact (conj cert_half cert_one). Qed.
 
-(* composed (kernel-checked when the development is built; not re-listed in Properties/C10.v because `Print Assumptions` through the
-   interval library costs 10 s per theorem): with the Poisson entropy series itself, every truncation from 30 terms on *)
-Theorem swap_values_differ_for_the_poisson_entropy_series K : (30 <= K)%nat ->
-  pcmi_valueR (fun lam => partial_entropy lam K) t_orig + 3 / 4 < pcmi_valueR (fun lam => partial_entropy lam K) t_swap.
-Proof. intros HK. apply swap_values_gen, series_near_certified, HK. Qed.
-Theorem zorder_values_differ_for_the_poisson_entropy_series K : (30 <= K)%nat ->
-  pcmi_valueR (fun lam => partial_entropy lam K) t_zrev + 1 / 10 < pcmi_valueR (fun lam => partial_entropy lam K) t_orig.
-Proof. intros HK. apply zorder_values_gen, series_near_certified, HK. Qed.
